@@ -287,11 +287,12 @@ def run(ctx):
         # at the one below (abstract execution per network, comparisons with the height decided by the scenario)
         import boundary
         hp = (gs.j.get("param_names") or ["block_number"])[0]
-        for net, want_at, want_before in (("Bitcoin", {"PRAGUE"}, {"CANCUN"}), ("Signet", {"PRAGUE"}, {"CANCUN"}), ("Regtest", {"PRAGUE"}, {"PRAGUE"}), ("Testnet4", {"PRAGUE"}, {"PRAGUE"})):
+        for net, want_at, want_before in (("Bitcoin", {"PRAGUE"}, {"CANCUN"}), ("Signet", {"PRAGUE"}, {"CANCUN"}), ("Regtest", {"PRAGUE"}, None), ("Testnet4", {"PRAGUE"}, None)):
             got_at, cmps = boundary.outcomes(F, gs, hp, net, "at")
             got_bf, _c = boundary.outcomes(F, gs, hp, net, "before")
-            R.ob(got_at == want_at and got_bf == want_before, "GUARD", gs.where(), "GUARD|get_evm_spec|boundary:%s" % net,
+            # (None: the rules are in force from height 0 on that network - there is no height below it to look at)
+            R.ob(got_at == want_at and (want_before is None or got_bf == want_before), "GUARD", gs.where(), "GUARD|get_evm_spec|boundary:%s" % net,
                  "on %s the spec at the activation height is %s (must be %s) and at the height below it %s (must be %s): the Prague rules "
-                 "(and the current-txid helper) start one block off" % (net, sorted(got_at), sorted(want_at), sorted(got_bf), sorted(want_before)),
+                 "(and the current-txid helper) start one block off" % (net, sorted(got_at), sorted(want_at), sorted(got_bf), sorted(want_before or [])),
                  sample={"rule": "GUARD (abstract execution)", "fn": "get_evm_spec", "network": net, "at": sorted(got_at), "before": sorted(got_bf), "comparisons": cmps})
     return R
